@@ -195,6 +195,34 @@ def _ok_ref(site: str, r: str) -> bool:
     return False
 
 
+def dangling_containment(rep) -> None:
+    """A dangling / malformed reference affects exactly what depends on it: a schema that ALSO refers to a healthy shared component fails, the
+    other users of that shared component and the component itself are generated - in every declaration order."""
+    import itertools
+    S = {"type": "string"}
+    R = lambda n: {"$ref": f"#/components/schemas/{n}"}
+    for bad_ref in ("#/components/schemas/Nope", "#/components/schemas/", "other.yaml#/X"):
+        parts = {"Broken": {"type": "object", "properties": {"shared": R("Shared"), "l": {"type": "array", "items": R("Shared")}, "bad": {"$ref": bad_ref}}},
+                 "Customer": {"type": "object", "properties": {"shared": R("Shared"), "name": S}},
+                 "Shared": {"type": "object", "properties": {"v": S}},
+                 "Wrapper": {"type": "object", "properties": {"c": R("Customer")}}}
+        for order in itertools.permutations(parts):
+            doc = gen.mkdoc(schemas={k: parts[k] for k in order}, paths={"/c": {"get": {"operationId": "c", "responses": {"200": {"description": "d", "content": {"application/json": {"schema": R("Customer")}}}}}}})
+            data, exc = gen.parse(doc)
+            rep.count(1, ("dangling-containment", bad_ref, order))
+            if exc is not None:
+                rep.violate("C20/dangling-containment/crash", f"order {order}: generator raised", exc=exc, doc=doc)
+                continue
+            have = {str(m.class_info.name) for m in data.models}
+            lost = {"Customer", "Shared", "Wrapper"} - have
+            if lost:
+                rep.violate(f"C20/dangling-containment/unrelated-removed/{'+'.join(sorted(lost))}", f"a dangling reference in Broken ({bad_ref}) also removes {sorted(lost)} (declaration order {list(order)})", doc=doc)
+            if "Broken" in have:
+                rep.violate("C20/dangling-containment/broken-generated", f"Broken refers to {bad_ref} but was generated (order {list(order)})", doc=doc)
+            elif not any("Broken" in ((e.header or "") + (e.detail or "")) for e in data.errors):
+                rep.violate("C20/dangling-containment/broken-undiagnosed", f"Broken was dropped without a diagnostic naming it (order {list(order)})", doc=doc)
+
+
 def inline_components(doc: dict) -> dict:
     """Replace every reference to a component parameter / request body / response (transitively) by a copy of its target."""
     import copy
@@ -298,6 +326,7 @@ def run(rep) -> None:
             cases += r.printed
         schema_references(rep, cases, rnd, d, quick)
         malformed(rep, d)
+        dangling_containment(rep)
         documents_leg(rep, d, quick)
         # code -> spec: the resolution of references through the retry rounds, as recorded by the hooks, is a behaviour of Pipeline.tla
         tsample = rnd.sample(cases, 500 if quick else 5000)
